@@ -908,14 +908,17 @@ func initString() {
 	StringClass.AddConstantString("Convertible", Ref(NewInterface()))
 
 	StringCharIteratorClass = NewClass()
+	StringCharIteratorClass.IncludeMixin(IteratorBaseMixin)
 	StringClass.AddConstantString("CharIterator", Ref(StringCharIteratorClass))
 	RegisterNativeClass("Std::String::CharIterator", "value.StringCharIteratorClass")
 
 	StringByteIteratorClass = NewClass()
+	StringByteIteratorClass.IncludeMixin(IteratorBaseMixin)
 	StringClass.AddConstantString("ByteIterator", Ref(StringByteIteratorClass))
 	RegisterNativeClass("Std::String::ByteIterator", "value.StringByteIteratorClass")
 
 	StringGraphemeIteratorClass = NewClass()
+	StringGraphemeIteratorClass.IncludeMixin(IteratorBaseMixin)
 	StringClass.AddConstantString("GraphemeIterator", Ref(StringGraphemeIteratorClass))
 	RegisterNativeClass("Std::String::GraphemeIterator", "value.StringGraphemeIteratorClass")
 }
